@@ -260,6 +260,15 @@ func genCase(t *rapid.T) *filterCase {
 			p.Functions[len(p.Functions)-1].Name = rapid.SampledFrom([]string{"newobject", "new", "sum", "operator new[]", "2fast", "7zip"}).Draw(t, "oddname1")
 		}
 	}
+	if rapid.IntRange(0, 5).Draw(t, "cwdprefix") == 0 {
+		// build systems record sources under /proc/self/cwd/, a prefix pprof strips from the file names it
+		// PRINTS; expressions are matched against the names the profile carries
+		for i := range p.Functions {
+			if p.Functions[i].Filename != "" {
+				p.Functions[i].Filename = "/proc/self/cwd/" + strings.TrimLeft(p.Functions[i].Filename, "/")
+			}
+		}
+	}
 	var pool []string
 	for _, f := range p.Functions {
 		pool = append(pool, f.Name, f.Filename)
